@@ -3,6 +3,7 @@ package server
 import (
 	"bytes"
 	"context"
+	"encoding/binary"
 	"errors"
 	"github.com/aldas/go-modbus-client/packet"
 )
@@ -48,11 +49,18 @@ func (m *ModbusTCPAssembler) handle(ctx context.Context, frame []byte) []byte {
 
 	resp, err := m.Handler.Handle(ctx, p)
 	if err != nil {
+		// error response must be addressed to the request it answers
+		errResp := packet.ErrorResponseTCP{
+			TransactionID: binary.BigEndian.Uint16(frame[0:2]),
+			UnitID:        frame[6],
+			Function:      frame[7],
+			Code:          packet.ErrUnknown,
+		}
 		var target *packet.ErrorParseTCP
 		if errors.As(err, &target) {
-			return target.Bytes()
+			errResp.Code = target.Packet.Code
 		}
-		return packet.NewErrorParseTCP(packet.ErrUnknown, err.Error()).Bytes()
+		return errResp.Bytes()
 	}
 
 	return resp.Bytes()
